@@ -7,7 +7,7 @@ from . import fieldlib as fl
 _counter = [0]
 
 
-def mk_register_class(rd, idx, extra=None):
+def mk_register_class(rd, idx, extra=None, base=None):
     from cfinterface.components.register import Register
     from cfinterface.components.line import Line
     _counter[0] += 1
@@ -15,7 +15,18 @@ def mk_register_class(rd, idx, extra=None):
           "LINE": Line([fl.mk_field(fd) for fd in rd["fields"]], delimiter=rd.get("delim")), "__slots__": [], "_verif_idx": idx}
     if extra:
         ns.update(extra)
-    return type("VReg%d_%d" % (idx, _counter[0]), (Register,), ns)
+    return type("VReg%d_%d" % (idx, _counter[0]), (base or Register,), ns)
+
+
+def mk_register_classes(regdefs):
+    """the classes of a register list; a definition with "parent": j (j earlier in the list) becomes a SUBCLASS of class j
+    that declares its own identifier and line (user code does build such hierarchies; every class-level attribute of the
+    framework is then reachable through inheritance)"""
+    out = []
+    for i, rd in enumerate(regdefs):
+        par = rd.get("parent")
+        out.append(mk_register_class(rd, i, base=out[par] if par is not None and par < i else None))
+    return out
 
 
 def mk_file_class(regs, binary=False, encoding=None):
@@ -101,6 +112,17 @@ def gen_regdefs(rng, nmax=4, delim=False, binary=False, same_window=False, sci=T
             fs.append(fd)
             pos = fd["start"] + fd["size"]
         out.append({"ident": ident, "digits": digits, "fields": fs, "delim": rng.choice([";", ",", "|"]) if delim else None})
+    # a quarter of the lists contain class hierarchies (decided with a private generator so that the main stream is unchanged)
+    import random
+    r2 = random.Random(len(out) * 7919 + sum(len(rd["fields"]) for rd in out) + sum(map(ord, "".join(idents))))
+    if r2.random() < 0.25:
+        for i in range(1, len(out)):
+            if r2.random() < 0.6:
+                out[i]["parent"] = r2.randrange(i)
+    # fields declared in an order different from their columns (the layout itself is unchanged)
+    for rd in out:
+        if len(rd["fields"]) > 1 and r2.random() < 0.3:
+            r2.shuffle(rd["fields"])
     return out
 
 
